@@ -951,6 +951,18 @@ fn compile_string_case(
         }
     }
 
+    if default_rows.is_empty() {
+        diagnostics.push(
+            Diagnostic::new(
+                Stage::other("compile"),
+                Severity::Error,
+                "non-exhaustive match on string literal; add a wildcard arm",
+            )
+            .with_range(match_range),
+        );
+        return emissing(ty);
+    }
+
     let arms = value_rows
         .into_iter()
         .map(|(value, rows)| core::Arm {
